@@ -170,7 +170,10 @@ pub fn do_top<'p>(ctx: &mut Ctx<'p>, t: &Thunk<'p>, tla: &[(String, bool, String
     } else {
         v
     };
-    let out = ctx.manifest(&v, true);
+    let out = match ctx.manifest_and_walk(&v) {
+        Out::Ok(_) => ctx.manifest(&v, true),
+        other => other,
+    };
     (out, Some(v))
 }
 
